@@ -396,9 +396,14 @@ class LFLine:
             self.pairs.append((k, v if v is not None else ""))
             parts.append(lf_render(rng, k, v))
         self.err = False
+        if not malform and rng.random() < 0.12:
+            # a record of bare keys: not a single '=' in the line, every key is exposed with an empty value
+            ks = rng.sample(LFKEYS + ["shutdown", "complete", "ready"], rng.randint(1, 3))
+            self.pairs = [(k, "") for k in ks]
+            parts = list(ks)
         if malform:
-            i = n        # an unterminated quote swallows whatever follows it: only at the end is the outcome unambiguous
-            parts = parts[:i] + ['bad="unterminated'] + parts[i:]
+            i = len(parts)        # an unterminated quote swallows whatever follows it: only at the end is the outcome unambiguous
+            parts = parts[:i] + [rng.choice(['bad="unterminated', 'bad="unterminated', 'level"info', '"abc'])] + parts[i:]
             self.pairs = self.pairs[:i]
             self.err = True
         self.text = " ".join(parts)
